@@ -125,10 +125,7 @@ def run(ctx, rep):
         stops = L.slot_calls('io_stop')
         post = [p for p in ps if p.block not in L.body]
         rep.check(bool(post) and bool(stops) and all(any(f.dom_or_loop(p, s) for p in post) or s.block in L.body or not f.bdominates(endb[0], s.block) for s in stops) and any(f.bdominates(endb[0], p.block) for p in post), 'R-C06-6', 'normal end: parity_sync of all levels before io_stop/return', f.file, '%d post-loop parity_sync sites' % len(post), function='state_sync_process', construct='final sync')
-    # the writers are not drained before the autosave: suspected finding F8 (not armed until replayed) — reported in evidence only
-    drain = [c for c in f.all_insts() if c.op == 'call' and c.indirect and 'io_stop' in f.expr(c.target) and c.block in L.body]
-    rep.extra['autosave_writer_drain_sites'] = len(drain)
-    rep.notes.append('R-C06-6b (writer drain before autosave) not armed: see DESIGN.md section 5, F8')
+    autosave_drain_rule(P, rep, L, 'R-C06-6b')
 
     rep.rule('R-C06-7', 'file-system self-check (fs_check of every disk, fatal) on load, before save and after scan', 4)
     for fn in ('state_read_content', 'state_write_content', 'state_diffscan'):
@@ -164,3 +161,40 @@ def run(ctx, rep):
     rep.check(ok, 'R-C06-8', 'state_sync: parity_chsize (fatal on failure) before state_sync_process', s.file, '', function='state_sync', construct='chsize')
     sizest = [i for i in s.all_insts() if i.op == 'store' and s.expr(i.ops[1]) == '&size']
     rep.check(len(sizest) == 1 and 'blockmax' in s.expr(sizest[0].ops[0]) and 'block_size' in s.expr(sizest[0].ops[0]) and any(c.callee == 'parity_allocated_size' for c in s.calls()), 'R-C06-8', 'size = parity_allocated_size(state) * block_size', s.file, s.expr(sizest[0].ops[0]) if sizest else '?', function='state_sync', construct='size')
+
+
+def autosave_drain_rule(P, rep, L, rid):
+    """a content save inside the stripe loop must be preceded (after the last io_write_next) by a blocking wait for the writer
+    workers: a call that can reach thread_join or a wait on the write_done condition.  Otherwise stripes already committed in
+    memory are saved as synced while their parity writes are still queued."""
+    f = L.f
+    rep.rule(rid, 'a content save inside the sync loop is preceded by a wait for the queued parity writes (writer drain)', 1)
+    wn = L.slot_calls('io_write_next')
+    saves = [c for c in f.calls('state_write') if c.block in L.body]
+    if not saves or len(wn) != 1:
+        raise AnalysisBroken('state_sync_process: autosave / io_write_next not found')
+    # functions that block until writers made progress: reach thread_join, or thread_cond_wait on write_done
+    cg = P.callgraph()
+    waiters = set()
+    for g in P.defined():
+        for c in g.calls({'thread_cond_wait'}):
+            if 'write_done' in g.expr(c.ops[0]):
+                waiters.add(g.name)
+        if any(True for _ in g.calls('thread_join')):
+            waiters.add(g.name)
+    def reaches_waiter(name, seen=None):
+        return bool(P.reachable([name]) & waiters)
+    for sv in saves:
+        between = f.reach([wn[0]], stop={sv.id})
+        drains = []
+        for c in f.calls():
+            if c.id in between and f.dominates(c, sv) and c.block in L.body and c.id != wn[0].id:
+                for t in P.call_targets(f, c):
+                    if t in P.functions and not P.functions[t].decl and reaches_waiter(t):
+                        # io_parity_write waits for ONE free slot of the next index, not for all queued writes of committed stripes
+                        if 'io_parity_write' in f.expr(c.target or ['c', 0, 32]) if c.indirect else False:
+                            continue
+                        drains.append(c)
+        rep.check(bool(drains), rid, 'state_sync_process: autosave waits for the queued parity writes', sv.loc(),
+                  'drained by %s' % [d.loc() for d in drains] if drains else 'between io_write_next and the autosave state_write nothing waits for the writer workers: the saved state can run ahead of the parity on disk',
+                  function='state_sync_process', construct='autosave without writer drain')
